@@ -231,12 +231,12 @@ def gen_code(rnd, org, m128, isr_addr, buf):
         frag_w += [
             (4, lambda: [0x01] + w(pport(0x7FFD, 0x8002)) + [0x3E, pv(), 0xED, 0x79]),      # paging through any port with A15 = A1 = 0
             (3, lambda: [0x3E, pv(), 0xD3, rnd.randrange(256) & 0xFD]),                     # OUT (n),A: port = A*256+n, A1 = 0 (A15 = 0 as the value is small)
-            (2, lambda: [0x01] + w(pport(0xFFFD, 0xC002)) + [0x3E, rnd.randrange(18), 0xED, 0x79, 0x01] + w(pport(0xBFFD, 0xC002)) + [0xED, 0x59]),  # AY select / write through partially decoded ports
+            (2, lambda: [0x01] + w(pport(0xFFFD, 0xC002)) + [0x3E, rnd.choice((0, 7, 13, 14, 15, 15, 16, 17, 31, rnd.randrange(16))), 0xED, 0x79, 0x01] + w(pport(0xBFFD, 0xC002)) + [0xED, 0x59]),  # AY select / write through partially decoded ports
 
             (6, lambda: [0x01, 0xFD, 0x7F, 0x3E, rnd.choice((0, 1, 3, 4, 6, 7, 0x10, 0x11, 0x13, 0x14, 0x16, 0x17, 0x18, 0x0F, 0x30 if rnd.random() < 0.15 else 0x15)), 0xED, 0x79]),
             (2, lambda: [0x01, 0xFD, 0x7F, 0x3E, 0x20 | rnd.randrange(8) | rnd.choice((0, 0x10)), 0xED, 0x79, 0x3E, rnd.randrange(8) | rnd.choice((0, 0x10)), 0xED, 0x79]),  # lock, then try to page
             (4, lambda: [0x3A] + w(0xC000 + rnd.randrange(8)) + [0x3C, 0x32] + w(0xC000 + rnd.randrange(8))),   # touch the paged bank
-            (2, lambda: [0x01, 0xFD, 0xFF, 0x3E, rnd.randrange(18), 0xED, 0x79, 0x06, 0xBF, 0xED, 0x59]),        # AY select ; AY write E
+            (2, lambda: [0x01, 0xFD, 0xFF, 0x3E, rnd.choice((0, 7, 13, 14, 15, 15, 16, 17, 31, rnd.randrange(16))), 0xED, 0x79, 0x06, 0xBF, 0xED, 0x59]),        # AY select ; AY write E
         ]
     total = sum(x for x, _ in frag_w)
     while len(code) < n:
